@@ -22,7 +22,7 @@ func init() { core.Register(c17{}) }
 func (c17) ID() string    { return "C17" }
 func (c17) Level() string { return "exploration" }
 func (c17) Rule() string {
-	return "seeded configuration values: integers of any magnitude (0, +-1, 2^31, 2^53+1, MaxInt64, MinInt64, random), floats, booleans, strings from a hostile alphabet (number-like 007 / 1.10 / +5 / 1e3, boolean-like TRUE / false, quoted 'x' / \"x\", bracketed [a,b] / {} / map[a:b], empty, with spaces / colons / leading blanks, plain), lists of ints / strings (hostile strings inside), nested string->string and string->int maps, structs with yaml tags; each value is marshalled to a YAML document by the generator, loaded by the real container and bound to reflect.StructOf holders three ways, one start each: prefix:\"k\" (typed expectation from the generator's own tree), value:\"${k}\" and prop:\"k\" (must equal the prefix-bound twin), into every compatible concretely typed target (scalar, pointer to scalar, []int / []int64 / []string, map[string]string / map[string]int, struct, *struct). Literals: value:\"<lit>\" into string / int / bool / float targets must be bound as written (strings byte-identical). non-trivial = hostile string, integer beyond 2^53, or a collection; distinct = (value, target type, path kind); own-copy family (a holder changing its map[string]any / []any bound data must not change what later bindings and Get deliver) and retried family (placeholder / prop / prefix bindings of one key after 0-2 failed attempts and Set changes); mapper family (mapper=json next to default bindings, in one holder and in a later start); in a quarter of the main cases the last key segment is selected by a placeholder (configured, or falling back to its default) in all three forms; explicitPrefix family; viaArgs family (command-line values with '='); memberCase family (struct members whose keys are spelled in another case in map / JSON literals, placeholder defaults and mappings inside configured lists); keys spelled in another case in the tags"
+	return "seeded configuration values: integers of any magnitude (0, +-1, 2^31, 2^53+1, MaxInt64, MinInt64, random), floats, booleans, strings from a hostile alphabet (number-like 007 / 1.10 / +5 / 1e3, boolean-like TRUE / false, quoted 'x' / \"x\", bracketed [a,b] / {} / map[a:b], empty, with spaces / colons / leading blanks, plain), lists of ints / strings (hostile strings inside), nested string->string and string->int maps, structs with yaml tags; each value is marshalled to a YAML document by the generator, loaded by the real container and bound to reflect.StructOf holders three ways, one start each: prefix:\"k\" (typed expectation from the generator's own tree), value:\"${k}\" and prop:\"k\" (must equal the prefix-bound twin), into every compatible concretely typed target (scalar, pointer to scalar, []int / []int64 / []string, map[string]string / map[string]int, struct, *struct). Literals: value:\"<lit>\" into string / int / bool / float targets must be bound as written (strings byte-identical). non-trivial = hostile string, integer beyond 2^53, or a collection; distinct = (value, target type, path kind); own-copy family (a holder changing its map[string]any / []any bound data must not change what later bindings and Get deliver) and retried family (placeholder / prop / prefix bindings of one key after 0-2 failed attempts and Set changes); mapper family (mapper=json next to default bindings, in one holder and in a later start); in a quarter of the main cases the last key segment is selected by a placeholder (configured, or falling back to its default) in all three forms; explicitPrefix family; viaArgs family (command-line values with '='); composite family (value tags assembled from several placeholders); memberCase family (struct members whose keys are spelled in another case in map / JSON literals, placeholder defaults and mappings inside configured lists); keys spelled in another case in the tags"
 }
 func (c17) Assumptions() []string {
 	return []string{
@@ -76,7 +76,12 @@ func genValue(c *core.Ctx) c17Value {
 		return c17Value{"strings", l}
 	case 10:
 		m := map[string]any{}
-		for _, k := range []string{"a", "b", "c"}[:1+c.Rng.Intn(3)] {
+		keys := []string{"a", "b", "c"}
+		if c.Rng.Intn(3) == 0 {
+			// keys of a mapping are data too: labels with dots and slashes
+			keys = []string{"app.kubernetes.io/name", "tier", "a.b"}
+		}
+		for _, k := range keys[:1+c.Rng.Intn(3)] {
 			m[k] = hostileStrings[c.Rng.Intn(len(hostileStrings))]
 		}
 		return c17Value{"mapss", m}
@@ -241,9 +246,51 @@ func (p c17) memberCase(c *core.Ctx) {
 	c.Nontrivial("membercase|" + tag + "|" + doc)
 }
 
+// composite: a value tag assembled from several placeholders (beginning and ending with one) binds the whole
+// assembled text, each configured value appearing unchanged at its place.
+func (p c17) composite(c *core.Ctx) {
+	v1 := []string{"example.org", "db.internal", "alpha", "svc-a"}[c.Rng.Intn(4)]
+	v2 := []string{"8080", "beta", ".local", "007", "1.10"}[c.Rng.Intn(5)]
+	sep := []string{":", "", "://", "-", " and "}[c.Rng.Intn(5)]
+	doc := fmt.Sprintf("cfg:\n  a: %q\n  b: %q\n", v1, v2)
+	tag, want := "", ""
+	switch c.Rng.Intn(4) {
+	case 0:
+		tag, want = "${cfg.a}"+sep+"${cfg.b}", v1+sep+v2
+	case 1:
+		if sniffable(v2) {
+			v2 = "beta" // (number-like defaults are C16's subject and its known finding)
+			doc = fmt.Sprintf("cfg:\n  a: %q\n  b: %q\n", v1, v2)
+		}
+		tag, want = "${cfg.a}"+sep+"${cfg.none:"+v2+"}", v1+sep+v2
+	case 2:
+		tag, want = "${cfg.a}"+sep+"${cfg.b}"+sep+"${cfg.a}", v1+sep+v2+sep+v1
+	default:
+		tag, want = "${cfg.a}"+sep+"${cfg.${cfg.sel:b}}", v1+sep+v2
+	}
+	full := fmt.Sprintf("value:%q", tag)
+	got, out, det := bindOnce(full, reflect.TypeOf(""), doc)
+	c.Count("starts", 1)
+	detail := map[string]any{"tag": full, "document": doc, "outcome": det}
+	if abnormal(out) {
+		c.Fail("", fmt.Sprintf("%s: %s", full, det), detail)
+		return
+	}
+	if out != "ok" || got != any(want) {
+		c.Fail("", fmt.Sprintf("%s with cfg.a=%q cfg.b=%q into string gives %q (%s), expected %q", full, v1, v2, got, out, want), detail)
+		return
+	}
+	c.Count("composite_bindings_checked", 1)
+	c.Nontrivial("composite|" + tag + "|" + doc)
+}
+
 func (p c17) Run(c *core.Ctx) {
 	if c.Index%20 == 6 {
 		p.memberCase(c)
+		return
+	}
+	if c.Index%20 == 11 {
+		p.composite(c)
 		return
 	}
 	if c.Index%5 == 4 {
